@@ -800,6 +800,10 @@ def ainsert {α : Type} (k : String) (v : α) : List (String × α) → List (St
   | [] => [(k, v)]
   | (k', v') :: r => if k = k' then (k, v) :: r else (k', v') :: ainsert k v r
 
+/-- a Go map filled by successive assignments: the last value of a key wins -/
+def dedupLast {α : Type} (l : List (String × α)) : List (String × α) :=
+  l.foldl (fun acc (kv : String × α) => ainsert kv.1 kv.2 acc) []
+
 /-- the components a parameter reference is classified against -/
 structure Env3 (V : Type) where
   cbodies : List (String × BRef3 V)
@@ -971,9 +975,17 @@ def identOK (s : String) : Bool := s.toList.all identChar && !s.isEmpty
 
 /-- the part of `(*openapi3.T).Validate` the conversion can violate: component names (the rest of
     Validate is not modelled; the generator stays inside what it accepts) -/
+def bodyHasContent {V : Type} : BRef3 V → Bool
+  | .ref _ _ => true
+  | .val b => !b.mimes.isEmpty
+
+/-- the parts of `(*openapi3.T).Validate` the conversion can violate: component names (#38) and
+    "content of the request body is required" (a v2 body parameter without a schema) -/
 def validates3 {V : Type} (d : Doc3 V) : Bool :=
   d.cparams.all (identOK ·.1) && d.cbodies.all (identOK ·.1) && d.cschemas.all (identOK ·.1) &&
-  d.cresponses.all (identOK ·.1) && d.secs.all (identOK ·.1)
+  d.cresponses.all (identOK ·.1) && d.secs.all (identOK ·.1) &&
+  d.cbodies.all (fun kb => bodyHasContent kb.2) &&
+  d.paths.all (fun p => p.ops.all (fun o => match o.body with | none => true | some b => bodyHasContent b))
 
 /-! ### the way back -/
 
@@ -1054,18 +1066,39 @@ def fromV3 {V : Type} (d : Doc3 V) : Option (Doc2 V) :=
   | some paths, some cps, some crs =>
     some {
       loc := fromV3Servers d.servers, consumes := [], produces := [],
-      params :=
+      -- doc2.Parameters is a Go map written in this order: a later entry replaces an earlier one of the same key
+      params := dedupLast (
         (d.cschemas.filter (fun (_, c) => isBinary c.schema)).map (fun (k, c) => (k, fromV3FileParam k c)) ++
         cps ++
         d.cbodies.flatMap (fun (k, b) => (fromV3Body bin true k b).map (fun p =>
           match p with
           | .val q => if q.loc = "formData" then (q.name, p) else (k, p)
-          | _ => (k, p))),
+          | _ => (k, p)))),
       responses := crs,
       defs := (d.cschemas.filter (fun (_, c) => !isBinary c.schema)).filterMap (fun (k, c) => (fromV3SO bin c.schema).map (fun s => (k, s))),
       secs := d.secs.filterMap (fun (k, s) => match fromV3Sec s with | .ok t => some (k, t) | _ => none),
       paths := paths }
   | _, _, _ => none
+
+/-- findNameForRequestBody: the name of a parameter as FromV3Operation sees it (references are resolved) -/
+def paramName3 {V : Type} (cparams : List (String × PRef3 V)) : PRef3 V → String
+  | .val p => p.name
+  | .ref _ n => match alookup n cparams with | some (.val q) => q.name | _ => ""
+
+/-- FromV3Operation fails with "could not find a name for request body": the operation has a request body
+    and parameters named `body` and `requestBody` -/
+def opNameClash {V : Type} (cparams : List (String × PRef3 V)) (o : Op3 V) : Bool :=
+  o.body.isSome && ["body", "requestBody"].all (fun n => o.params.any (fun p => paramName3 cparams p == n))
+
+/-- outcome of FromV3 -/
+inductive BackRes (V : Type) where
+  | ok (d : Doc2 V) | panic | error
+
+/-- FromV3 with its error outcome. (A document with both an erroring and a panicking operation ends in the one
+    Go's map order reaches first; such documents are not generated.) -/
+def fromV3Full {V : Type} (d : Doc3 V) : BackRes V :=
+  if d.paths.any (fun p => p.ops.any (opNameClash d.cparams)) then .error
+  else match fromV3 d with | some d2 => .ok d2 | none => .panic
 
 /-! ### the abstract API -/
 
@@ -1157,6 +1190,11 @@ def respOKBack {V : Type} : RRef2 V → Bool
 
 /-- an inline query / header / path parameter inside the fragment -/
 def paramSimple {V : Type} : PRef2 V → Bool
+  | .ref k _ => k.isV2            -- a reference to a shared parameter (of the fragment: `sharedSimple`)
+  | .val p => p.loc != "body" && p.loc != "formData" && itemsOK3 p.items
+
+/-- a shared parameter of the fragment: an inline query / header / path parameter -/
+def sharedSimple {V : Type} : PRef2 V → Bool
   | .ref _ _ => false
   | .val p => p.loc != "body" && p.loc != "formData" && itemsOK3 p.items
 
@@ -1187,20 +1225,39 @@ def namesOK {V : Type} (d : Doc2 V) : Bool :=
   d.params.all (fun kv => identOK kv.1) && d.responses.all (fun kv => identOK kv.1) &&
   d.defs.all (fun kv => identOK kv.1) && d.secs.all (fun kv => identOK kv.1)
 
+/-- every inline body parameter (of an operation or shared) has a schema (exclusion of F-C17-14 when false) -/
+def bodyParamOK {V : Type} : PRef2 V → Bool
+  | .ref _ _ => true
+  | .val p => p.loc != "body" || p.schema.isSome
+
+def bodiesOK {V : Type} (d : Doc2 V) : Bool :=
+  d.params.all (fun kp => bodyParamOK kp.2) && d.paths.all (fun p => p.ops.all (fun o => o.params.all bodyParamOK))
+
 def locOK (l : Loc2) : Bool := l.host != "" || (l.basePath == "" && l.schemes.isEmpty)
 
-/-- documents without shared parameters whose operations take inline query / header / path parameters;
-    shared responses, definitions (distinct names), security schemes and the location are unrestricted
-    inside the fragments of the component theorems -/
+/-- documents whose shared parameters are query / header / path parameters and whose operations and path items
+    take such parameters inline or by reference; shared responses, definitions (distinct names), security
+    schemes and the location are unrestricted inside the fragments of the component theorems.
+    (References are taken to resolve: the loader's failure on a dangling parameter / response reference is
+    not modelled.) -/
 def docSimple {V : Type} (d : Doc2 V) : Bool :=
-  d.params.isEmpty && d.paths.all pathSimple && d.responses.all (fun kr => respOK3 kr.2) &&
+  d.params.all (fun kp => sharedSimple kp.2) && d.paths.all pathSimple && d.responses.all (fun kr => respOK3 kr.2) &&
   nodupKeys d.defs && d.defs.all (fun ks => !addlImpure ks.2 && v2Refs ks.2) &&
   d.secs.all (fun ks => secInFragment ks.2) && locOK d.loc
 
 /-- fragment of the round-trip theorems (outside every exclusion), component by component -/
 def paramSimpleBack {V : Type} : PRef2 V → Bool
+  | .ref k _ => k.isV2
+  | .val p => p.loc != "body" && p.loc != "formData" && itemsOKBack p.items && noBinary2 (paramSchema2 p)
+
+def sharedSimpleBack {V : Type} : PRef2 V → Bool
   | .ref _ _ => false
   | .val p => p.loc != "body" && p.loc != "formData" && itemsOKBack p.items && noBinary2 (paramSchema2 p)
+
+/-- the v2 parameter that comes back for a parameter of the simple fragment -/
+def backPS {V : Type} : PRef2 V → PRef2 V
+  | .ref k n => .ref (fromV3RK (toV3RK k)) n
+  | .val p => .val (fromV3Param (toV3Param p))
 
 def headerSimpleBack {V : Type} (h : String × Param2 V) : Bool :=
   itemsOKBack h.2.items && noBinary2 (paramSchema2 h.2)
@@ -1220,7 +1277,7 @@ def defSimpleBack {V : Type} (s : Sch V) : Bool :=
   (match s with | .ref _ _ => true | .node h _ => h.fmt != some "binary")
 
 def docSimpleBack {V : Type} (d : Doc2 V) : Bool :=
-  docSimple d && d.params.isEmpty && d.paths.all pathSimpleBack && d.responses.all (fun kr => respSimpleBack d.produces kr.2) &&
+  docSimple d && (d.params.all (fun kp => sharedSimpleBack kp.2) && nodupKeys d.params) && d.paths.all pathSimpleBack && d.responses.all (fun kr => respSimpleBack d.produces kr.2) &&
   nodupKeys d.defs && d.defs.all (fun ks => defSimpleBack ks.2) &&
   d.secs.all (fun ks => secInFragment ks.2) &&
   (d.loc.host != "" && d.loc.schemes.all (fun x => x == "http" || x == "https"))
